@@ -60,30 +60,44 @@ func c18Specs() []distSpec {
 		p := p
 		out = append(out, distSpec{"RandN", fmt.Sprintf("mean %g sigma %g", p[0], p[1]), true, p[0], p[1], func(s []int) (tensor.Tensor, error) { return tensor.RandN(s, p[0], p[1], T) }, true})
 	}
+	// every config struct is overwritten with different (valid) values right after construction:
+	// an initializer must keep what it was configured with, not a reference to the caller's struct
 	u0 := mustInit(initializers.NewUniform(nil))
 	out = append(out, distSpec{"Uniform", "nil config", false, -0.05, 0.05, u0.Init, true})
 	for _, p := range [][2]float64{{-1, 4}, {0.25, 0.75}, {-7, -6.5}} {
-		u := mustInit(initializers.NewUniform(&initializers.UniformConfig{Lower: p[0], Upper: p[1]}))
+		uc := &initializers.UniformConfig{Lower: p[0], Upper: p[1]}
+		u := mustInit(initializers.NewUniform(uc))
+		uc.Lower, uc.Upper = 100, 200
 		out = append(out, distSpec{"Uniform", fmt.Sprintf("[%g,%g)", p[0], p[1]), false, p[0], p[1], u.Init, true})
 	}
 	n0 := mustInit(initializers.NewNormal(nil))
 	out = append(out, distSpec{"Normal", "nil config", true, 0, 0.05, n0.Init, true})
 	for _, p := range [][2]float64{{1, 2}, {-3, 0.5}, {0, 10}} {
-		n := mustInit(initializers.NewNormal(&initializers.NormalConfig{Mean: p[0], StdDev: p[1]}))
+		nc := &initializers.NormalConfig{Mean: p[0], StdDev: p[1]}
+		n := mustInit(initializers.NewNormal(nc))
+		nc.Mean, nc.StdDev = -50, 7
 		out = append(out, distSpec{"Normal", fmt.Sprintf("mean %g sigma %g", p[0], p[1]), true, p[0], p[1], n.Init, true})
 	}
 	for _, f := range []int{1, 2, 3, 7, 50} {
 		r := math.Sqrt(6 / float64(f))
-		hu := mustInit(initializers.NewHeUniform(&initializers.HeUniformConfig{FanIn: f}))
+		huc := &initializers.HeUniformConfig{FanIn: f}
+		hu := mustInit(initializers.NewHeUniform(huc))
+		huc.FanIn = 1000
 		out = append(out, distSpec{"HeUniform", fmt.Sprintf("fanIn %d", f), false, -r, r, hu.Init, true})
-		hn := mustInit(initializers.NewHeNormal(&initializers.HeNormalConfig{FanIn: f}))
+		hnc := &initializers.HeNormalConfig{FanIn: f}
+		hn := mustInit(initializers.NewHeNormal(hnc))
+		hnc.FanIn = 1000
 		out = append(out, distSpec{"HeNormal", fmt.Sprintf("fanIn %d", f), true, 0, math.Sqrt(2 / float64(f)), hn.Init, true})
 	}
 	for _, f := range [][2]int{{1, 1}, {2, 1}, {2, 3}, {5, 8}, {16, 4}, {101, 100}} {
 		r := math.Sqrt(6 / float64(f[0]+f[1]))
-		xu := mustInit(initializers.NewXavierUniform(&initializers.XavierUniformConfig{FanIn: f[0], FanOut: f[1]}))
+		xuc := &initializers.XavierUniformConfig{FanIn: f[0], FanOut: f[1]}
+		xu := mustInit(initializers.NewXavierUniform(xuc))
+		xuc.FanIn, xuc.FanOut = 999, 999
 		out = append(out, distSpec{"XavierUniform", fmt.Sprintf("fanIn %d fanOut %d", f[0], f[1]), false, -r, r, xu.Init, true})
-		xn := mustInit(initializers.NewXavierNormal(&initializers.XavierNormalConfig{FanIn: f[0], FanOut: f[1]}))
+		xnc := &initializers.XavierNormalConfig{FanIn: f[0], FanOut: f[1]}
+		xn := mustInit(initializers.NewXavierNormal(xnc))
+		xnc.FanIn, xnc.FanOut = 999, 999
 		out = append(out, distSpec{"XavierNormal", fmt.Sprintf("fanIn %d fanOut %d", f[0], f[1]), true, 0, math.Sqrt(2 / float64(f[0]+f[1])), xn.Init, true})
 	}
 	return out
@@ -163,15 +177,25 @@ func runC18(c *fw.Ctx) {
 		c.Case(func(k *fw.K) { c18Dist(k, d, target) })
 	}
 	c.Case(func(k *fw.K) { c18Full(k) })
+	// large tensors: freshness inside one tensor (no repeated blocks / rows), moments, support
+	for _, d := range c18Specs() {
+		if d.params == "nil config" || d.params == "[0,1)" || d.params == "mean 0 sigma 1" || d.params == "fanIn 3" || d.params == "fanIn 2 fanOut 3" {
+			d := d
+			c.Case(func(k *fw.K) { c18Large(k, d, c.Quick()) })
+		}
+	}
 }
 
 func c18Full(k *fw.K) {
 	k.Case = map[string]any{"generator": "Full", "values": []any{"nil config (0)", -3.5, 1e10}}
 	k.Key("Full")
+	fc1, fc2 := &initializers.FullConfig{Value: -3.5}, &initializers.FullConfig{Value: 1e10}
+	f1, f2 := initializers.NewFull(fc1), initializers.NewFull(fc2)
+	fc1.Value, fc2.Value = 77, 77 // the caller's config is overwritten after construction
 	for _, f := range []struct {
 		in   *initializers.Full
 		want float64
-	}{{initializers.NewFull(nil), 0}, {initializers.NewFull(&initializers.FullConfig{Value: -3.5}), -3.5}, {initializers.NewFull(&initializers.FullConfig{Value: 1e10}), 1e10}} {
+	}{{initializers.NewFull(nil), 0}, {f1, -3.5}, {f2, 1e10}} {
 		for _, s := range c18Shapes {
 			t, err := f.in.Init(ref.CopyInts(s))
 			if err != nil {
@@ -292,4 +316,83 @@ func c18Dist(k *fw.K, d distSpec, target int) {
 	if equalPos > limit {
 		k.Failf("%s: draws are not fresh: consecutive tensors agree at %d of %d compared positions", name, equalPos, comparedPos)
 	}
+}
+
+// c18Large draws a few large tensors (up to 2^17 elements, several layouts) and checks that the values
+// inside ONE tensor are fresh: (almost) all distinct, no two equal rows, no block repeated at any
+// power-of-two fraction of the tensor, plus the usual conformance of the pooled sample.
+func c18Large(k *fw.K, d distSpec, quick bool) {
+	xrand.Seed(uint64(k.Rng.Int63()))
+	name := d.gen + "(" + d.params + ")"
+	shapes := [][]int{{256, 256}, {16, 4096}, {4096, 16}, {65536}, {8, 8, 1024}, {181, 181}, {4, 8192}}
+	if !quick {
+		shapes = append(shapes, []int{512, 256}, []int{2, 65536}, []int{32, 32, 64}, []int{3, 43691})
+	}
+	k.Case = map[string]any{"generator": d.gen, "parameters": d.params, "large_shapes": shapes}
+	k.Key("%s/%s/large", d.gen, d.params)
+	var pooled []float64
+	for _, shape := range shapes {
+		var t tensor.Tensor
+		var err error
+		if p := call(func() { t, err = d.init(ref.CopyInts(shape)) }); p != nil || err != nil || t == nil {
+			k.Failf("%s.Init(%v): panic=%v err=%v", name, shape, p, err)
+			return
+		}
+		x, err := rt.Read(t)
+		if err != nil || !ref.SameShape(x.Shape, shape) {
+			k.Failf("%s.Init(%v) returned shape %v (%v)", name, shape, x, err)
+			return
+		}
+		k.Count("large_tensors_drawn", 1)
+		n := len(x.Data)
+		seen := make(map[uint64]int, n)
+		for _, v := range x.Data {
+			seen[math.Float64bits(v)]++
+			if !d.normal && !(v >= d.a && v < d.b) {
+				k.Failf("%s.Init(%v): value %v outside the support [%v, %v)", name, shape, v, d.a, d.b)
+				return
+			}
+		}
+		minDistinct := n
+		if d.normal {
+			minDistinct = n - n/100
+		} else {
+			minDistinct = n - 3 // a 53-bit uniform repeats among 1e5 draws with probability ~1e-6
+		}
+		if len(seen) < minDistinct {
+			k.Failf("%s.Init(%v): only %d distinct values among %d elements: draws inside one tensor are not fresh", name, shape, len(seen), n)
+			return
+		}
+		// repeated blocks: compare the tensor with itself shifted by n/2, n/4, n/8, one row
+		shifts := []int{n / 2, n / 4, n / 8, n / 16}
+		if len(shape) >= 2 {
+			shifts = append(shifts, n/shape[0])
+		}
+		for _, sh := range shifts {
+			if sh == 0 {
+				continue
+			}
+			eq := 0
+			for i := 0; i+sh < n; i++ {
+				if x.Data[i] == x.Data[i+sh] {
+					eq++
+				}
+			}
+			if eq > n/100 {
+				k.Failf("%s.Init(%v): %d of %d elements equal the element %d positions later: a block of the tensor is repeated", name, shape, eq, n-sh, sh)
+				return
+			}
+		}
+		if len(pooled) < 400000 {
+			pooled = append(pooled, x.Data...)
+		}
+	}
+	if msg := d.conform(pooled, "elements of the large tensors"); msg != "" {
+		k.Failf("%s: %s", name, msg)
+		return
+	}
+	if r := corr(pooled[:len(pooled)-1], pooled[1:]); math.Abs(r) > 6.5/math.Sqrt(float64(len(pooled))) {
+		k.Failf("%s: lag-1 autocorrelation %v over %d draws of large tensors", name, r, len(pooled))
+	}
+	k.Count("statistical_checks", 4)
 }
